@@ -9,7 +9,11 @@ import (
 	"go/ast"
 	"go/parser"
 	"go/token"
+	"io"
+	"net"
+	"net/http"
 	"os"
+	"os/exec"
 	"path/filepath"
 	"reflect"
 	"sort"
@@ -330,6 +334,23 @@ func cmdEmbed(args []string) {
 							litCases = append(litCases, fmt.Sprintf("{| t_fn := 2; t_in := %s; t_pad := []; t_out := %s |}", coqpp.Str(vals[name]), coqpp.Str(src[1:len(src)-1])))
 						}
 					}
+					// what the generated server itself serves at <basePath>/swagger.json: the generated main is built and started
+					// (a few cases per run: the several-files inputs and one of each flatten mode)
+					if j.multi || j.id < len(c10Modes) {
+						mu.Unlock()
+						served, serr := servedSpec(dir, j.doc)
+						mu.Lock()
+						cov["served-document-fetched"]++
+						if serr != nil && strings.Contains(serr.Error(), "does not build") {
+							// whether generated code compiles is C01's question (known: enum helpers of inline allOf members under --with-expand)
+							cov["served-document-skipped:server-does-not-build"]++
+						} else if serr != nil {
+							viols = append(viols, violation{Key: "c10/served-unavailable[" + j.mode.name + "]", What: "the generated server does not serve its document: " + serr.Error(), Input: in})
+						} else if !jsonEqual(served, input) {
+							viols = append(viols, violation{Key: "c10/served-differs[" + j.mode.name + "]", What: "the document the generated server serves at /swagger.json is not JSON-equal to the input spec (" + j.mode.name + ")", Input: in,
+								Detail: firstJSONDiff(served, input)})
+						}
+					}
 					if len(samples) < 3 {
 						samples = append(samples, map[string]interface{}{"mode": j.mode.name, "yaml_input": j.yaml, "strings": j.marks, "SwaggerJSON_bytes": len(vals["SwaggerJSON"]), "FlatSwaggerJSON_bytes": len(vals["FlatSwaggerJSON"])})
 					}
@@ -444,4 +465,63 @@ func diffAt(path string, got, want interface{}) string {
 		return fmt.Sprintf("%s: got %q, want %q", path, fmt.Sprint(got), fmt.Sprint(want))
 	}
 	return ""
+}
+
+// servedSpec builds the generated main, starts it on a free port and fetches <basePath>/swagger.json
+func servedSpec(dir string, doc map[string]interface{}) ([]byte, error) {
+	mains, _ := filepath.Glob(filepath.Join(dir, "cmd", "*-server"))
+	if len(mains) != 1 {
+		return nil, fmt.Errorf("no generated main package")
+	}
+	exe := filepath.Join(dir, "srv.bin")
+	b := exec.Command("go", "build", "-o", exe, "./"+filepath.ToSlash(strings.TrimPrefix(mains[0], dir+string(filepath.Separator))))
+	b.Dir = dir
+	b.Env = append(os.Environ(), "GOFLAGS=-mod=mod", "GOPROXY=off", "GOSUMDB=off", "GOTOOLCHAIN=local")
+	if bo, err := b.CombinedOutput(); err != nil {
+		return nil, fmt.Errorf("the generated server does not build: %s", tailText(string(bo)))
+	}
+	l, err := net.Listen("tcp", "127.0.0.1:0")
+	if err != nil {
+		return nil, err
+	}
+	port := l.Addr().(*net.TCPAddr).Port
+	_ = l.Close()
+	srv := exec.Command(exe, "--host", "127.0.0.1", "--port", strconv.Itoa(port))
+	srv.Dir = dir
+	if err := srv.Start(); err != nil {
+		return nil, err
+	}
+	defer func() { _ = srv.Process.Kill(); _, _ = srv.Process.Wait(); _ = os.Remove(exe) }()
+	base, _ := doc["basePath"].(string)
+	urls := []string{fmt.Sprintf("http://127.0.0.1:%d%s/swagger.json", port, strings.TrimSuffix(base, "/")), fmt.Sprintf("http://127.0.0.1:%d/swagger.json", port)}
+	var last error
+	for i := 0; i < 100; i++ {
+		time.Sleep(100 * time.Millisecond)
+		status := 0
+		for _, url := range urls {
+			resp, err := http.Get(url)
+			if err != nil {
+				last = err
+				status = -1
+				break
+			}
+			body, _ := io.ReadAll(resp.Body)
+			_ = resp.Body.Close()
+			status = resp.StatusCode
+			if resp.StatusCode == 200 {
+				return body, nil
+			}
+		}
+		if status > 0 {
+			return nil, fmt.Errorf("GET %v: status %d", urls, status)
+		}
+	}
+	return nil, fmt.Errorf("server did not answer: %v", last)
+}
+
+func tailText(s string) string {
+	if len(s) > 500 {
+		return s[len(s)-500:]
+	}
+	return s
 }
